@@ -97,7 +97,7 @@ class MTArray(Generic[NPT]):
             else:
                 # Make sure we have a writeable array for Torch. Client code
                 # still shouldn't write to it.
-                arr = np.require(self.numpy(), requirements="W")
+                arr = np.require(self.numpy(), requirements=["C", "W"])
                 return torch.tensor(arr)
 
         if device:
